@@ -25,7 +25,7 @@ levels = {
  "C13": (MC, "status modified/deleted/untracked sections = the sets computed by TLC from the projected index, blobs and working tree (content tokens, no hashing), with .goitignore latitude; touch and identical rewrite leave the report unchanged; the model's transcription of cmd/status.go (StatusImpl, with the ignore matching of internal/store/ignore.go) is checked by TLC against the same clauses on every transition of the bounded instances", "6 C13"),
  "C14": (MC, "log -n k (k in 0..9 and default) = first min(k, len) elements of the first-parent chain computed by TLC from decoded commits, in every state; depends only on objects and HEAD commit; the transcription of cmd/log.go's queue (LogImpl/LogObs) is checked against TakeN(Chain, k) on every reachable model state", "6 C14"),
  "C15": (FE, "every crash point (prefix of the strace-recorded file-system modifications) of every modifying command over scenario + random pre-states is materialised, projected and judged by TLC against C15_Loads, C15_Refs, C15_Reach, C15_OldOrNew; after every crash point the interrupted command is given again and that step is judged too (C15_RetryNoCrash, C15_RetryUsable); recording self-checked, sample cross-checked by really killing the process; the write protocols are model-checked at design level (GoitFS/MC_FS: a crash at every position of every interleaving; MC_FSOld, the protocol branch -r had before its repair, is the negative control) and every recorded run is checked to be in the language of its command's plan", "6 C15"),
- "C16": (FE, "every single fault position (open/create/read/readdir/write/mkdir/rename/remove, stat excluded) of every modifying command, injected with strace (positions compared modulo temporary-file names; a fault that lands on another repository call is judged where it happened), judged by TLC against C16_NoCrash, C16_HonestSuccess (all functional clauses + same result, journal included, as the fault-free run), C16_Connected, C16_NoBadAdvance", "6 C16"),
+ "C16": (FE, "every single fault position (open/create/read/readdir/write/mkdir/rename/remove, stat excluded) of every modifying command, injected with strace (calls on files with stable names by path-restricted tracing, calls on temporary files by per-thread ordinal compared modulo their names; a fault that lands on another repository call is judged where it happened), judged by TLC against C16_NoCrash, C16_HonestSuccess (all functional clauses + same result, journal included, as the fault-free run), C16_Connected, C16_NoBadAdvance", "6 C16"),
  "C17": (MC, "no index path inside .goit, no ignored path staged or listed, nothing hidden without .goitignore, metadata bytes untouched by restore/reset --hard; argument forms '.', parent directory, ignored path itself, nested; clauses judged by TLC on every step", "6 C17"),
  "C18": (MC, "CLI grammar (22 sub-command forms x flag subsets x 0..3 arguments from valid/missing/surplus/malformed/non-existent/metacharacter classes) against states reached by the model tour and random histories, incl. fresh repository, emptied index, empty snapshot, renamed branch: result in {ok, refused}, refused => byte-identical repository", "6 C18"),
  "C19": (FE, "every truncation, every single-byte deletion, single-byte substitutions, field-level damage of the text files (fields shortened, lengthened, split, joined), object swaps, crafted objects and generator-made arbitrary bytes for object, index, HEAD, branch, config and reflog files of repositories Goit produced; every read-only command, cat-file -t/-p, restore, reset --hard run on each under a timeout, an address-space limit and a peak-RSS bound; judged by TLC (C19_Total, C19_NoWrongData incl. the kind cat-file -t prints)", "6 C19"),
